@@ -151,10 +151,19 @@ namespace rpc {
                                 }
                                 if (ret == -1) {
                                     // or just timed out
+                                    bool erased;
                                     {
                                         SCOPED_LOCK(m_mutex_map);
-                                        m_map.erase(args.tag);
-                                        m_cond_collected.notify_one();
+                                        erased = m_map.erase(args.tag) > 0;
+                                        if (erased) m_cond_collected.notify_one();
+                                    }
+                                    if (!erased) {
+                                        // the reader has already taken this context
+                                        // out of the map and is receiving the response
+                                        // into its buffers: it must stay alive until
+                                        // the reader marks it COLLECTED and wakes us
+                                        args.timeout = Timeout();
+                                        break;
                                     }
                                     LOG_ERROR_RETURN(ETIMEDOUT, -1, "waiting for completion timeout");
                                 }
